@@ -95,6 +95,12 @@ func (c06) Gen(r *sim.Rand, c *sim.Case, tier string) {
 			ops = append(ops, sim.Op{K: "pg.margins", F: []float64{20, 20, 20, 20}})
 		}
 		fault := sim.Op{K: "P-vocab1", I: []int{r.Intn(1000), name, spelling, cont}, S: []sim.Str{"word/document.xml"}}
+		if (c.Run/3)%4 == 2 {
+			// ... and another fourth walks the unusual archive directories: variant x sub-variant x victim selector
+			zc := int((c.Run/12 + c.Seed*15485863) % uint64(14*4*6))
+			fault = sim.Op{K: "Z-names", I: []int{zc / (14 * 4), zc / 14 % 4, zc % 14, []int{2, 10, 100, 1000}[r.Intn(4)]}, S: []sim.Str{"any"}}
+			c.Cfg["zip_enum"] = 1
+		}
 		if (c.Run/3)%4 == 3 {
 			// every fourth case of the lane walks the lexical faults instead: variant x part x sub-variant
 			lc := int((c.Run/12 + c.Seed*104729) % uint64(16*len(c06lexParts)*4))
